@@ -475,7 +475,10 @@ def representation_switch(index: RepoIndex, rep, rule: str) -> None:
             for n_ in ast.walk(e):
                 if isinstance(n_, ast.Name) and depth > 0:
                     d_ = w.single_def(n_.id)
-                    if d_ is not None and d_[0] == 'value':
+                    # only a local whose value read the attribute that is being replaced can
+                    # be stale (`outer_env = self.outer_env` is an alias of the object)
+                    if d_ is not None and d_[0] == 'value' and \
+                            f'.{rattr}' in src(w.expand(d_[1])):
                         at = min(at, evaluated_at(d_[1], d_[2], depth - 1))
             return at
         ok2 = v2 is not None and bool(r1) and (
